@@ -33,6 +33,20 @@ CLAIMED = {
         "(the property's two sentences disagree there); final-overrider subtleties through virtual bases are "
         "outside the enumerated domain (WFClass).",
         "DESIGN.md §C10"),
+    "C06": (
+        "TLA+ spec TypeTerm (declarator grammar: type terms built inside-out one constructor per step, Render = "
+        "declarator text with both cv placements, Struct = the same type in type-trait combinators), TLC enumeration "
+        "with well-formedness invariants; every term declared as variable / typedef / parameter and replayed: g++ "
+        "confirms Render = Struct (spec sanity), parse_file must accept it, and the text parse_file prints back and "
+        "the prototype recorded in the database are compiled next to the original under static_assert(is_same)",
+        "Every well-formed type term up to the depth bound over pointer / reference / rvalue reference / array / "
+        "function / pointer-to-member / const constructors is enumerated by TLC; acceptance and type identity of "
+        "everything interrogate prints for it are decided by g++ on every case; shipped stub headers that g++ accepts "
+        "must parse with zero errors.",
+        "Trusted: TLC, g++ 12 (is_same decides type identity; it also validates the spec's Render against Struct on "
+        "every term), the 40-line renderer of declaration forms. Name lookup through namespaces/using/shadowing and "
+        "template arguments are not yet covered by a spec (only exercised through the stub-header corpus).",
+        "DESIGN.md §C06"),
 }
 
 NOT_APPLICABLE = {
